@@ -5,7 +5,7 @@ From PV Require Import Heap Values ValuesProofs Mutation MutationProofs.
 Import ListNotations.
 Open Scope nat_scope.
 
-(* Frame, one operation: after ANY listed operation (getters, to_yaml, deepcopy, update_template without in_place,
+(* Frame, one operation: after ANY listed operation (getters, to_yaml, deepcopy, update_template without in_place, OperatorTemplate.update_template,
    get_run_func / get_jacobian_func / run with in_place=False) called on the template r, EVERY template c (of any depth d')
    that had a denotation before — r itself, its sub-circuits, templates sharing nodes or operators with it — has the
    same denotation (equations, defaults, per-node values, connectivity). *)
@@ -71,7 +71,7 @@ Print Assumptions C14_run_after_compile_witness.
    getters, deepcopy, update_template, to_yaml and two runs: the guard holds, all templates keep their denotation,
    the store did grow (copies were made) *)
 Definition nv_ops : list mop :=
-  [MRead (QNodes ["all"%string; "all"%string]); MRead QEdges; MDeepcopy; MUpdateTemplate [("c1/C/op/x"%string, "c1/A/op/u"%string, [])];
+  [MRead (QNodes ["all"%string; "all"%string]); MRead QEdges; MDeepcopy; MNewObject (OOp "op" ["d/dt * x = k + u"%string] []); MUpdateTemplate [("c1/C/op/x"%string, "c1/A/op/u"%string, [])];
    MToYaml; MRun false; MRead (QNodeTemplate ["c1"%string; "C"%string]); MRun true; MObserve].
 Example C14_nonvacuous :
   no_state_carry nv_ops = true /\
